@@ -15,5 +15,6 @@ TECHNIQUE = {
     'C17': 'static guard tables: accessor guards extracted by path enumeration and evaluated by constant folding over the finite access/notification vocabularies; sibling agreement of Get/GetAll; loop-shape rules for aggregation vs lookup',
     'C12': 'static matcher analysis: key-coverage dataflow between addMatch, Rule.add and Rule.match; separator-aware prefix lint; decision tables of the namespace and argument-path tests by path enumeration and constant folding; rule-text/local-rule agreement',
     'C16': 'static ownership and announcement rules by path enumeration; descendant and child tests extracted and evaluated by constant folding on a fixed table of path pairs; separator-aware prefix lint',
+    'C09': 'static liveness/cleanup obligations: lifecycle-stage path enumeration of connectionLost, resolver idempotence, endpoint-walk shape, live-container iteration lint with positive control, proxy-registration on all construction paths',
     'C02': 'static conformance check of the extracted codec model against specification tables; padding function interpreted in the congruence domain mod 8',
 }
